@@ -233,6 +233,10 @@ impl<Service: service::Service, Resource: ServiceResource> Sender<Service, Resou
 
         let mut number_of_recipients = 0;
         if let Some(connection) = self.get(connection_id) {
+            // the connection derives the chunk index from the offset and the distance between two
+            // chunks of the segment, which is the bucket size - a grown (serialized) chunk may be
+            // smaller than the bucket it was moved into
+            let sample_size = self.data_segment.bucket_size(chunk.offset().segment_id());
             let delivery_call_result = if let Some(handler) = self.backpressure_handler.as_ref() {
                 let backpressure_action_for_strategy = match self.backpressure_strategy {
                     BackpressureStrategy::RetryUntilDelivered => {
@@ -246,7 +250,7 @@ impl<Service: service::Service, Resource: ServiceResource> Sender<Service, Resou
                 <Service::Connection as ZeroCopyConnection>::Sender::blocking_send(
                     &connection.sender,
                     chunk.offset(),
-                    chunk.size(),
+                    sample_size,
                     channel_id,
                     |retries, elapsed_time| {
                         handler
@@ -271,7 +275,7 @@ impl<Service: service::Service, Resource: ServiceResource> Sender<Service, Resou
                         <Service::Connection as ZeroCopyConnection>::Sender::try_send(
                             &connection.sender,
                             chunk.offset(),
-                            chunk.size(),
+                            sample_size,
                             channel_id,
                         )
                     }
@@ -279,7 +283,7 @@ impl<Service: service::Service, Resource: ServiceResource> Sender<Service, Resou
                         <Service::Connection as ZeroCopyConnection>::Sender::blocking_send(
                             &connection.sender,
                             chunk.offset(),
-                            chunk.size(),
+                            sample_size,
                             channel_id,
                             |_, _| BackpressureToReceiverAction::FollowBackpressureyStrategy,
                             BackpressureToReceiverAction::Retry,
